@@ -89,8 +89,9 @@ def parse_mir(text):
 
 def parse_enums(src_texts):
     """enum name -> [variant names] from Rust source (brace matching, top-level commas)."""
-    out = {}
-    for txt in src_texts:
+    out = {}; kept = {}
+    for item in src_texts:
+        module, txt = item if isinstance(item, tuple) else ('?', item)
         txt = re.sub(r'//[^\n]*', '', txt)
         for m in re.finditer(r'\benum (\w+)(?:<[^>]*>)?\s*\{', txt):
             i = m.end(); d = 1; j = i
@@ -103,7 +104,13 @@ def parse_enums(src_texts):
                 part = re.sub(r'#\[[^\]]*\]', '', part).strip()
                 mm = re.match(r'(\w+)', part)
                 if mm: vs.append(mm.group(1))
-            out[m.group(1)] = vs
+            # two enums of the same name in different modules (lex::Token, ein::Token): aggregates carry only the last path segment, so
+            # keep the larger one; values of the shadowed one fail with "discriminant of …" (inconclusive), never silently
+            if m.group(1) in out:
+                sh = out.setdefault('__shadowed__', {})
+                if len(out[m.group(1)]) >= len(vs): sh[m.group(1)] = kept[m.group(1)]; continue
+                sh[m.group(1)] = module
+            out[m.group(1)] = vs; kept[m.group(1)] = module
     return out
 
 # =============================================================== values
@@ -617,6 +624,11 @@ class Engine:
         if m and balanced(m.group(1)):
             v = s.operand(fr, m.group(1)); return Seq([v] * int(m.group(2)))
         # aggregates
+        sh = s.enums.get('__shadowed__')
+        if sh:
+            mq = re.match(r'^([\w:]+)::(\w+)(?:::<.*>)?::\w+', t)
+            if mq and mq.group(2) in sh and mq.group(1).split('::')[-1] != sh[mq.group(2)]:
+                raise Missing(f'enum {mq.group(1)}::{mq.group(2)} is shadowed by {sh[mq.group(2)]}::{mq.group(2)} in the encoder\'s enum table')
         m = re.match(r'^(?:[\w:]+::)?(\w+)(?:::<.*>)?::(\w+)\((.*)\)$', t)
         if m and m.group(1) in s.enums and m.group(2) in s.enums[m.group(1)]:
             return Adt(m.group(1), m.group(2), [s.operand(fr, x) for x in split_top(m.group(3))])
@@ -627,7 +639,7 @@ class Engine:
         if m and m.group(1) in s.enums and m.group(2) in s.enums[m.group(1)]:
             return Adt(m.group(1), m.group(2), [s.operand(fr, x.split(':', 1)[1]) for x in split_top(m.group(3))])
         if re.fullmatch(r'\w+', t):
-            hits = [ty for ty, vs in s.enums.items() if t in vs]
+            hits = [ty for ty, vs in s.enums.items() if not ty.startswith('__') and t in vs]
             if len(hits) == 1: return Adt(hits[0], t, [])
             for ty in ('Ordering', 'Sign', 'Assoc', 'Option'):
                 if ty in hits: return Adt(ty, t, [])
@@ -640,7 +652,7 @@ class Engine:
         m = re.match(r'^([\w:]+?)(?:::<.*>)?\((.*)\)$', t)
         if m and c0 != '(':   # tuple struct / single-name enum variant constructor
             nm = m.group(1).split('::')[-1]
-            hits = [ty for ty, vs in s.enums.items() if nm in vs]
+            hits = [ty for ty, vs in s.enums.items() if not ty.startswith('__') and nm in vs]
             if nm in ('Some', 'Ok', 'Err') or len(hits) == 1:
                 ty = {'Some': 'Option', 'Ok': 'Result', 'Err': 'Result'}.get(nm) or hits[0]
                 return Adt(ty, nm, [s.operand(fr, x) for x in split_top(m.group(2))])
@@ -820,6 +832,10 @@ class Engine:
         if f is not None: return s.run_fn(f, args)
         r = s.dyn_dispatch(callee, args)
         if r is not NotImplemented: return r
+        if re.fullmatch(r'<(?:[a-z_]\w*::)*[A-Z]\w*(?:<.*>)? as Clone>::clone', callee) and args and isinstance(args[0], Ref) and isinstance(s.deref(args[0]), Adt):
+            # an impl the resolver cannot tell apart from a same-named type's (two `Token`s): every Clone impl in the crate is derived or
+            # structural, so clone structurally
+            return s.clone_value(s.deref(args[0]))
         raise Missing(f'no model for {callee0}  argtys={argtys} (in {fn.name if fn else "?"})')
 
     def dyn_dispatch(s, callee, args):
